@@ -33,7 +33,8 @@ CCall(e) == /\ ~incall /\ incall' = TRUE /\ want' = e.want /\ UNCHANGED <<m, d, 
 CPreBegin(e) == /\ ~incall /\ d = 0 /\ sp = 0 /\ m.pre > 0 /\ incall' = TRUE /\ want' = e.want /\ UNCHANGED <<m, d, sp, eofs>>
 CPre(e) == /\ incall /\ d = 0 /\ e.ok /\ e.n = m.pre /\ e.n = want       \* exactly the first octets of the payload
            /\ incall' = FALSE /\ UNCHANGED <<m, d, sp, eofs, want>>
-SRead(e) == /\ incall /\ m.kind \in {"sync", "async"}
+(* a read of the payload source; it need not happen inside a consumer call (an adaptor may prime its buffer early) *)
+SRead(e) == /\ m.kind \in {"sync", "async"}
             /\ e.pos = sp
             /\ CASE e.r = "got"     -> sp' = sp + e.n /\ sp + e.n <= m.plen
                  [] e.r = "eof"     -> sp = m.plen /\ UNCHANGED sp
@@ -49,8 +50,8 @@ CRet(e) ==
             /\ IF e.n = 0
                THEN (want = 0 \/ d = m.hlen + m.plen - m.pre) /\ eofs' = (IF want = 0 THEN eofs ELSE eofs + 1) /\ UNCHANGED d
                ELSE eofs = 0 /\ d' = d + e.n /\ d + e.n <= m.hlen + m.plen - m.pre /\ UNCHANGED eofs
-       [] e.r = "pending" -> m.iface = "async" /\ m.kind = "async" /\ UNCHANGED <<d, eofs>>
-       [] e.r = "intr"    -> m.iface = "sync" /\ m.kind = "sync" /\ UNCHANGED <<d, eofs>>
+       [] e.r = "pending" -> m.iface = "async" /\ UNCHANGED <<d, eofs>>       \* any async consumer may be told "not ready" (C08 fixes the octets only)
+       [] e.r = "intr"    -> m.kind = "sync" /\ UNCHANGED <<d, eofs>>         \* an interrupted blocking source may show through either interface
        [] OTHER           -> FALSE
   /\ UNCHANGED <<m, sp, want>>
 CEnd(e) == /\ ~incall /\ d = m.hlen + m.plen - m.pre /\ eofs >= 2 /\ e.total = d
